@@ -113,22 +113,24 @@ Proof. exact (class_preserved c d). Qed.
 Print Assumptions C16_class_preserved.
 
 (* known finding: for a subclass with its own __init__ signature the operators that build their result through
-   type(self)(...) re-run the constructor: defaults are re-injected, a whole mapping lands in the first parameter, or the
-   constructor raises; for every other class the entry points are the operators proved above *)
+   type(self)(...) re-run the constructor on the result dict passed positionally: the whole mapping lands in the first parameter
+   (the others take their defaults), or a keyword-only constructor raises; for every other class the entry points are the operators proved above *)
 Theorem C16_subclass_constructor_rerun_refuted :
-  d_and_py (fun _ => 0%Z) CPoint [("x", 1%Z); ("y", 2%Z); ("z", 3%Z)] ["z"] = DObj CPoint [("x", 0%Z); ("y", 0%Z); ("z", 3%Z)] /\
+  d_and_py (fun _ => 0%Z) (fun _ => (-1)%Z) CPoint [("x", 1%Z); ("y", 2%Z); ("z", 3%Z)] ["z"] = DObj CPoint [("x", (-1)%Z); ("y", 0%Z)] /\
   d_and CPoint [("x", 1%Z); ("y", 2%Z); ("z", 3%Z)] ["z"] = DObj CPoint [("z", 3%Z)] /\
   d_getlist_py (fun _ => 0%Z) (fun _ => (-1)%Z) CPoint [("x", 1%Z); ("z", 3%Z)] ["z"] = DObj CPoint [("x", (-1)%Z); ("y", 0%Z)] /\
+  d_relabel_py (fun _ => 0%Z) (fun _ => (-1)%Z) CKwInit [("name", 1%Z)] RNone [("name", "n2")] = DErr "TypeError" /\
   d_or_py (fun _ => 0%Z) (fun _ => (-1)%Z) CKwInit [("name", 1%Z)] [("w", 5%Z)] = DErr "TypeError".
 Proof. vm_compute. repeat split. Qed.
 Print Assumptions C16_subclass_constructor_rerun_refuted.
 Theorem C16_entry_points V (init_default : string -> V) (as_value : amap V -> V) c (d : amap V) ks o a kw : own_init c = false ->
-  d_and_py init_default c d ks = d_and c d ks /\ d_getlist_py init_default as_value c d ks = d_getlist c d ks /\
-  d_or_py init_default as_value c d o = d_or c d o /\ d_relabel_py init_default c d a kw = d_relabel c d a kw.
+  d_and_py init_default as_value c d ks = d_and c d ks /\ d_getlist_py init_default as_value c d ks = d_getlist c d ks /\
+  d_or_py init_default as_value c d o = d_or c d o /\ d_relabel_py init_default as_value c d a kw = d_relabel c d a kw.
 Proof.
-  intros H. unfold d_and_py, d_getlist_py, d_or_py, d_relabel_py, rerun_kw, rerun_pos. rewrite H.
-  repeat split; try (destruct (d_and c d ks); reflexivity); try (destruct (d_relabel c d a kw); reflexivity);
-    destruct c; try discriminate; try (destruct (d_getlist _ d ks); reflexivity); destruct (d_or _ d o); reflexivity.
+  intros H. unfold d_and_py, d_getlist_py, d_or_py, d_relabel_py, rerun_pos.
+  destruct c; try discriminate; repeat split;
+    try (destruct (d_and _ d ks); reflexivity); try (destruct (d_relabel _ d a kw); reflexivity);
+    try (destruct (d_getlist _ d ks); reflexivity); destruct (d_or _ d o); reflexivity.
 Qed.
 Print Assumptions C16_entry_points.
 
